@@ -6,6 +6,7 @@ from ..index import unparse, iter_own_nodes, AnalysisError
 from ..cfg import calls_in_node
 from ..framework import stores_to_name, assigned_values
 from . import common
+from .. import exprs as X
 
 EXPLANATION = (
     "PARTIAL.  Not decided (headline): equality of the tree built by LoggedAction with the tree built by "
@@ -45,12 +46,44 @@ def _keys_read(ctx, f, expr, var):
     return keys
 
 
+def _groupings(f, listparam):
+    """Locals that hold the message list split by a key of each message, in log order:
+    name -> ("ordered", key-expr, loop node)  for  `G = defaultdict(list)` + `for e in <list>: G[e[K]].append(e)` (every message kept, order kept)
+    name -> ("runs", key-expr, node)          for  `{k: list(g) for k, g in groupby(<list>, key=...)}` (only the LAST consecutive run of each key survives)"""
+    out = {}
+    for x in iter_own_nodes(f.node):
+        if isinstance(x, ast.For) and isinstance(x.iter, ast.Name) and x.iter.id == listparam and isinstance(x.target, ast.Name) and len(x.body) == 1 and not x.orelse \
+                and isinstance(x.body[0], ast.Expr) and isinstance(x.body[0].value, ast.Call):
+            c = x.body[0].value
+            if isinstance(c.func, ast.Attribute) and c.func.attr == "append" and len(c.args) == 1 and isinstance(c.args[0], ast.Name) and c.args[0].id == x.target.id:
+                recv = c.func.value
+                g, key = None, None
+                if isinstance(recv, ast.Subscript) and isinstance(recv.value, ast.Name):
+                    g, key = recv.value.id, recv.slice
+                elif isinstance(recv, ast.Call) and isinstance(recv.func, ast.Attribute) and recv.func.attr == "setdefault" and isinstance(recv.func.value, ast.Name) \
+                        and len(recv.args) == 2 and isinstance(recv.args[1], ast.List) and not recv.args[1].elts:
+                    g, key = recv.func.value.id, recv.args[0]
+                if g is not None and isinstance(key, ast.Subscript) and isinstance(key.value, ast.Name) and key.value.id == x.target.id:
+                    vals = [v for v in assigned_values(f, g) if not (isinstance(v, ast.Constant) and v.value is None)]
+                    fresh = len(vals) == 1 and vals[0] is not None and (unparse(vals[0]) in ("defaultdict(list)", "collections.defaultdict(list)") if isinstance(recv, ast.Subscript)
+                                                                       else unparse(vals[0]) in ("{}", "dict()"))
+                    if fresh:
+                        out[g] = ("ordered", key.slice, x)
+        if isinstance(x, ast.Assign) and len(x.targets) == 1 and isinstance(x.targets[0], ast.Name) and isinstance(x.value, ast.DictComp) and len(x.value.generators) == 1:
+            it = x.value.generators[0].iter
+            if isinstance(it, ast.Call) and unparse(it.func).split(".")[-1] == "groupby" and it.args and isinstance(it.args[0], ast.Name) and it.args[0].id == listparam:
+                out[x.targets[0].id] = ("runs", None, x)
+    return out
+
+
 def _scan(chk, f, listparam):
     """Locate the selection scan over `listparam`: returns (kind, loopvar, filter exprs, result exprs, problems)."""
     ctx = chk.ctx
     cfg = ctx.cfg(f)
     problems = []
-    loops = [n for n in cfg.live if n.kind == "for_next" and isinstance(n.ast.iter, ast.Name) and n.ast.iter.id == listparam]
+    groups = _groupings(f, listparam)
+    grouping_loops = {id(v[2]) for v in groups.values() if v[0] == "ordered"}
+    loops = [n for n in cfg.live if n.kind == "for_next" and isinstance(n.ast.iter, ast.Name) and n.ast.iter.id == listparam and id(n.ast) not in grouping_loops]
     comps = [x for x in iter_own_nodes(f.node) if isinstance(x, ast.ListComp) and len(x.generators) == 1 and isinstance(x.generators[0].iter, ast.Name)
              and x.generators[0].iter.id == listparam]
     if loops:
@@ -58,7 +91,10 @@ def _scan(chk, f, listparam):
         lv = head.ast.target.id
         quiet = common.quiet_exc_edges(ctx, f)
         region = common.loop_region(cfg, head)
-        apps = [(n, c) for n in region for c, m in calls_in_node(n) if isinstance(c.func, ast.Attribute) and c.func.attr == "append"]
+        apps = [(n, c) for n in region for c, m in calls_in_node(n) if isinstance(c.func, ast.Attribute) and c.func.attr == "append"
+                and not (isinstance(c.func.value, ast.Subscript) and isinstance(c.func.value.value, ast.Name) and c.func.value.value.id in groups)
+                and not (isinstance(c.func.value, ast.Call) and isinstance(c.func.value.func, ast.Attribute) and isinstance(c.func.value.func.value, ast.Name)
+                         and c.func.value.func.value.id in groups)]
         if any(n.kind in ("break", "return") for n in region):
             problems.append("the scan can stop before the end of the message list")
         filt = []
@@ -117,8 +153,38 @@ def rule_select(chk):
         a0, a1 = res[0].args[0], res[0].args[1]
         okb = fm in ctx.targets(la, res[0]) and isinstance(a0, ast.Subscript) and ctx.try_fold(la, a0.slice) == (True, UU) and isinstance(a1, ast.Subscript) \
             and ctx.try_fold(la, a1.slice) == (True, TL) and isinstance(res[0].args[2], ast.Name) and res[0].args[2].id == lparam
-    chk.req(okb, "C17.select", "LoggedAction.of_type:builds-each-action-from-the-full-list", chk.where(la),
-            good="fromMessages(message uuid, message level, <all messages>)", fail="the LoggedAction is not built from the start message's uuid/level and the full message list")
+    if not okb and len(res) == 1 and isinstance(res[0], ast.Call) and len(res[0].args) == 3 and fm in ctx.targets(la, res[0]):
+        # the third argument may be the messages of that task only, as long as it is ALL of them in log order (fromMessages skips other tasks anyway)
+        def _res1(e):
+            e = X.inline(la, e)
+            if isinstance(e, ast.Name):
+                vals_ = [v for v in assigned_values(la, e.id) if v is not None]
+                if len(vals_) == 1:
+                    return vals_[0]
+            return e
+        a0, a1, a2 = [_res1(a) for a in res[0].args]
+        uu_ok = isinstance(a0, ast.Subscript) and isinstance(a0.value, ast.Name) and a0.value.id == lv and ctx.try_fold(la, a0.slice) == (True, UU)
+        tl_ok = isinstance(a1, ast.Subscript) and isinstance(a1.value, ast.Name) and a1.value.id == lv and ctx.try_fold(la, a1.slice) == (True, TL)
+        groups = _groupings(la, lparam)
+        if uu_ok and tl_ok and isinstance(a2, ast.Subscript) and isinstance(a2.value, ast.Name) and a2.value.id in groups:
+            kind_, key_, node_ = groups[a2.value.id]
+            sl = _res1(a2.slice)
+            same_key = isinstance(sl, ast.Subscript) and isinstance(sl.value, ast.Name) and sl.value.id == lv and ctx.try_fold(la, sl.slice) == (True, UU)
+            if kind_ == "runs":
+                chk.bad("C17.select", "LoggedAction.of_type:builds-each-action-from-the-full-list", chk.where(la, node_.lineno),
+                        "each action is rebuilt from %s[...], a dict built from itertools.groupby over the log: groupby starts a new group whenever the key changes, so for a task whose messages "
+                        "are interleaved with another task's (two threads, two asyncio tasks) only its LAST consecutive run of messages survives -- children are lost or the start message is "
+                        "'missing', depending on the schedule" % a2.value.id)
+                okb = None
+            elif same_key and ctx.try_fold(la, key_) == (True, UU):
+                okb = True
+            else:
+                raise AnalysisError("LoggedAction.of_type: the per-task message lists are keyed by something else than the task uuid (not modelled)")
+        elif uu_ok and tl_ok and not (isinstance(a2, ast.Name) and a2.id == lparam):
+            raise AnalysisError("LoggedAction.of_type: fromMessages is given %s instead of the message list (not modelled)" % unparse(res[0].args[2])[:40])
+    if okb is not None:
+        chk.req(okb, "C17.select", "LoggedAction.of_type:builds-each-action-from-the-full-list", chk.where(la),
+                good="fromMessages(message uuid, message level, <all messages of that task, in log order>)", fail="the LoggedAction is not built from the start message's uuid/level and the full message list")
     lm = ctx.func("testing", "LoggedMessage.of_type")
     kind, lv, filt, res, problems = _scan(chk, lm, lm.params[1])
     keys = set()
@@ -157,7 +223,7 @@ def rule_own(chk):
                 "the scan over the messages can stop early: messages and child actions emitted after that point (e.g. a remote sub-task continued after the parent's end message) "
                 "are dropped from children / descendants / type_tree, while the parser still attaches them")
         return
-    from .. import exprs as X
+
     env = X.single_assignments(fm)
 
     def is_status(x):
